@@ -2,7 +2,7 @@
    "partial": serde_json's writer is modelled by [serialise] (checked against the real bytes by
    the correspondence run, not verified); schema conformance of all fields is an oracle. *)
 From Coq Require Import Lia.
-From RM Require Import C15.Model C15.Proofs C15.Proofs2.
+From RM Require Import C15.Model C15.Schema C15.Proofs C15.Proofs2 C15.Proofs3.
 Open Scope Z_scope.
 
 (* Escaping is total and correct: every JSON value — arbitrary nesting, arbitrary integers,
@@ -62,25 +62,46 @@ Theorem c15_offsets : forall p w idx f, frame_ok f ->
     jget k_function_offset j =
       Some (match fr_function_base f with Some base => JStr (address_str w (fr_instr f - base)) | None => JNull end) /\
     jget k_missing_symbols j = Some (JBool (match fr_function f with Some _ => false | None => true end)) /\
-    jget k_trust j = Some (JStr (trust_name (fr_trust f))).
-Proof. exact frame_json. Qed.
+    jget k_trust j = Some (JStr (trust_name (fr_trust f))) /\
+    jget k_module j = Some (match fr_module f with Some (name, _) => JStr (basename name) | None => JNull end).
+Proof.
+  intros p w idx f H. destruct (frame_json p w idx f H) as (j & A & B & C & D & E & F & G & I). exists j.
+  repeat split; try assumption. rewrite I. destruct (fr_module f) as [[nm b]|]; reflexivity.
+Qed.
 Print Assumptions c15_offsets.
 
-(* the modules / unloaded_modules arrays mirror the module lists, in order, with
-   end_addr = base + size; pid is the state's *)
+(* the modules / unloaded_modules arrays mirror the module lists, in order: element i describes module i with
+   filename = basename of its code file (the unloaded module's name as it is), base_addr = its base,
+   end_addr = base + size, cert_subject = cert_info[filename], loaded / missing symbols from symbol_stats[filename];
+   pid is the state's *)
 Theorem c15_modules_mirror : forall p s, state_ok s ->
-  exists j, json_of_state p s = Ret j /\
-    jget k_modules j = Some (JArr (map (fun m => JObj [(k_base_addr, JStr (address_str (s_width s) (m_base m)));
-                                                       (k_end_addr, JStr (address_str (s_width s) (m_base m + m_size m)));
-                                                       (k_filename, JStr (m_name m))]) (s_modules s))) /\
-    jget k_unloaded_modules j =
-      Some (JArr (map (fun m => JObj [(k_base_addr, JStr (address_str (s_width s) (m_base m)));
-                                      (k_end_addr, JStr (address_str (s_width s) (m_base m + m_size m)));
-                                      (k_filename, JStr (m_name m))]) (s_unloaded s))) /\
+  exists j ms us, json_of_state p s = Ret j /\
+    jget k_modules j = Some (JArr ms) /\ jget k_unloaded_modules j = Some (JArr us) /\
+    length ms = length (s_modules s) /\ length us = length (s_unloaded s) /\
+    (forall i m, nth_error (s_modules s) i = Some m ->
+       exists mj, nth_error ms i = Some mj /\
+         jget k_filename mj = Some (JStr (basename (m_file m))) /\
+         jget k_base_addr mj = Some (JStr (address_str (s_width s) (m_base m))) /\
+         jget k_end_addr mj = Some (JStr (address_str (s_width s) (m_base m + m_size m))) /\
+         jget k_code_id mj = Some (JStr (m_code_id m)) /\
+         jget k_cert_subject mj = Some (jopt JStr (lookup (basename (m_file m)) (s_certinfo s))) /\
+         jget k_missing_symbols mj =
+           Some (JBool (match lookup (basename (m_file m)) (s_symstats s) with Some st => negb (ss_loaded st) | None => false end))) /\
+    (forall i m, nth_error (s_unloaded s) i = Some m ->
+       exists mj, nth_error us i = Some mj /\
+         jget k_filename mj = Some (JStr (m_file m)) /\
+         jget k_base_addr mj = Some (JStr (address_str (s_width s) (m_base m))) /\
+         jget k_end_addr mj = Some (JStr (address_str (s_width s) (m_base m + m_size m))) /\
+         jget k_cert_subject mj = Some (jopt JStr (lookup (m_file m) (s_certinfo s)))) /\
     jget k_pid j = Some (match s_pid s with Some n => JNum n | None => JNull end).
 Proof.
   intros p s Hok. destruct (state_json p s Hok) as (j & ts & Hj & _ & _ & _ & Hp & Hm & Hu & _).
-  exists j. split; [exact Hj|]. split; [exact Hm|]. split; [exact Hu|]. rewrite Hp. destruct (s_pid s); reflexivity.
+  exists j. eexists. eexists. split; [exact Hj|]. split; [exact Hm|]. split; [exact Hu|].
+  split; [apply map_length|]. split; [apply map_length|]. split; [|split].
+  - intros i m Hn. eexists. split; [apply map_nth_error; exact Hn|]. unfold mod_obj. cbv zeta.
+    repeat split; try reflexivity. cbn [jget assoc]. destruct (lookup (basename (m_file m)) (s_symstats s)); reflexivity.
+  - intros i m Hn. eexists. split; [apply map_nth_error; exact Hn|]. repeat split; reflexivity.
+  - rewrite Hp. destruct (s_pid s); reflexivity.
 Qed.
 Print Assumptions c15_modules_mirror.
 
@@ -98,6 +119,7 @@ Theorem c15_crashing_thread_copy : forall p s, state_ok s ->
            jget k_frame_count cc = jget k_frame_count tj /\
            jget k_thread_id cc = jget k_thread_id tj /\
            jget k_thread_name cc = jget k_thread_name tj /\
+           jget k_last_error_value cc = jget k_last_error_value tj /\
            jget k_frames cc = Some (JArr (add_registers (json_registers (s_registers s)) f0 :: fs)) /\
            jget k_registers (add_registers (json_registers (s_registers s)) f0) = Some (json_registers (s_registers s)) /\
            forall k, k <> k_registers ->
@@ -115,7 +137,7 @@ Proof.
     exists tj, (crashing_copy (json_registers (s_registers s)) i tj), f0, fs'.
     split; [exact Hn'|]. split; [exact Hc|]. rewrite Etj.
     destruct (crashing_copy_spec (json_registers (s_registers s)) i (JNum (Z.of_nat (length (fr0 :: frs)))) f0 fs'
-                (JNum (th_id t)) (jopt JStr (th_name t))) as (C1 & C2 & C3 & C4 & C5).
+                (jopt JStr (th_last_error t)) (JNum (th_id t)) (jopt JStr (th_name t))) as (C1 & C2 & C3 & C4 & C4' & C5).
     destruct (frame_registers p _ _ _ _ (json_registers (s_registers s)) Hf0) as (R1 & R2).
     repeat split; try assumption; reflexivity.
 Qed.
@@ -160,6 +182,45 @@ Proof.
 Qed.
 Print Assumptions c15_os_unknown_known_witness.
 
+(* SCHEMA CONFORMANCE, every process state.  DOC_SCHEMA is the schema tree that translate/c15_schema.py regenerates
+   from the ```rust,ignore block of minidump-processor/json-schema.md on every run (field names, leaf types <u32> <u64>
+   <bool> <string> <hexstring>, enumerations, arrays, the register map).  For every state satisfying the executable
+   well-formedness conditions [wf_state] (evaluated on every real state by the correspondence run: numeric members within
+   the documented integer types, enumeration indices in range, frame / module arithmetic does not wrap — the C08 / C11 /
+   C14 conclusions —, the requesting thread exists, distinct register names; Os::Unknown is excluded: finding F-C15a) and
+   in BOTH build profiles the report is produced without trap, is a JSON value whose serialisation parses back to it, and
+   conforms to the documented schema: every member name at every level is documented and occurs once, every value has the
+   documented type or is null, every enumeration-valued string is a documented value, every Address / register / microcode
+   string is "0x" + 1..16 lower-case hex digits.  Outside the model (so outside this theorem): "soft_errors" and
+   possible_bit_flips[].confidence (the model's document has every other member of print_json's). *)
+Theorem c15_schema_conformance : forall p s, wf_state s = true ->
+  exists j, json_of_state p s = Ret j /\ conforms DOC_SCHEMA j = true /\ parse (serialise j) = Some j.
+Proof.
+  intros p s H. exists (report_obj s). split; [exact (report_pure p s H)|]. split; [exact (report_conforms s H)|apply serialise_parse].
+Qed.
+Print Assumptions c15_schema_conformance.
+
+(* the report does not depend on the build profile when the state is well-formed *)
+Theorem c15_profile_independent : forall s, wf_state s = true -> json_of_state Debug s = json_of_state Release s.
+Proof. intros s H. rewrite (report_pure Debug s H), (report_pure Release s H). reflexivity. Qed.
+Print Assumptions c15_profile_independent.
+
+(* [conforms] is not vacuous: it rejects an undocumented member, a duplicated member, a number where a hex string is
+   documented, an upper-case / unprefixed / 17-digit hex string, an undocumented enumeration value and a too large <u32> *)
+Theorem c15_conforms_rejects :
+  conforms DOC_SCHEMA (JObj [([120], JNum 1)]) = false /\
+  conforms DOC_SCHEMA (JObj [(k_pid, JNum 1); (k_pid, JNum 1)]) = false /\
+  conforms DOC_SCHEMA (JObj [(k_pid, JNum 4294967296)]) = false /\
+  conforms DOC_SCHEMA (JObj [(k_crash_info, JObj [(k_address, JNum 16)])]) = false /\
+  conforms DOC_SCHEMA (JObj [(k_crash_info, JObj [(k_address, JStr [48; 120; 65])])]) = false /\
+  conforms DOC_SCHEMA (JObj [(k_crash_info, JObj [(k_address, JStr [49; 48])])]) = false /\
+  conforms DOC_SCHEMA (JObj [(k_crash_info, JObj [(k_address, JStr (48 :: 120 :: repeat 48 17))])]) = false /\
+  conforms DOC_SCHEMA (JObj [(k_system_info, JObj [(k_os, JStr (os_name 8 32768))])]) = false /\
+  conforms DOC_SCHEMA (JObj [(k_threads, JArr [JObj [(k_frames, JArr [JObj [(k_trust, JStr (trust_name 0))]])]])]) = false /\
+  conforms DOC_SCHEMA (JObj [(k_threads, JArr [JObj [(k_frames, JArr [JObj [(k_trust, JStr (trust_name 2))]])]])]) = true.
+Proof. vm_compute. repeat split; reflexivity. Qed.
+Print Assumptions c15_conforms_rejects.
+
 (* ---- non-vacuity ---- *)
 Example c15_nonvacuous_roundtrip :
   let v := JObj [([97; 34; 92; 10; 1; 128512], JArr [JNum (-42); JNum 0; JNull; JBool true; JStr [31; 127; 8]; JObj []; JArr []])] in
@@ -170,31 +231,47 @@ Proof. vm_compute. split; reflexivity. Qed.
 
 Definition ex_state : state :=
   {| s_width := W32; s_pid := Some 7;
-     s_threads := [ {| th_id := 1; th_name := Some [110; 34]; th_frames :=
-                        [ {| fr_instr := 4198400; fr_module := Some ([109], 4194304); fr_function := Some [102];
+     s_threads := [ {| th_id := 1; th_name := Some [110; 34]; th_last_error := Some [69];
+                       th_frames :=
+                        [ {| fr_instr := 4198400; fr_module := Some ([47; 109], 4194304); fr_function := Some [102];
                              fr_function_base := Some 4198144; fr_file := None; fr_line := Some 3;
-                             fr_trust := 4; fr_unloaded := [] |};
+                             fr_trust := 4; fr_unloaded := [];
+                             fr_inlines := [ {| in_function := [105]; in_file := None; in_line := Some 9 |} ] |};
                           {| fr_instr := 16; fr_module := None; fr_function := None; fr_function_base := None;
-                             fr_file := None; fr_line := None; fr_trust := 1; fr_unloaded := [([117], [16; 32])] |} ] |};
-                    {| th_id := 2; th_name := None; th_frames := [] |} ];
+                             fr_file := None; fr_line := None; fr_trust := 1; fr_unloaded := [([117], [16; 32])];
+                             fr_inlines := [] |} ] |};
+                    {| th_id := 2; th_name := None; th_last_error := None; th_frames := [] |} ];
      s_requesting := Some 0%nat; s_registers := [([101; 105; 112], 4198400, 8%nat)];
-     s_modules := [ {| m_base := 4194304; m_size := 65536; m_name := [109] |} ]; s_unloaded := [];
+     s_modules := [ {| m_base := 4194304; m_size := 65536; m_file := [47; 109]; m_debug_file := [100]; m_debug_id := [48];
+                       m_code_id := []; m_version := None |};
+                    {| m_base := 8388608; m_size := 4096; m_file := [120; 92; 109]; m_debug_file := []; m_debug_id := [];
+                       m_code_id := [65]; m_version := Some [49] |} ];
+     s_unloaded := [ {| m_base := 12582912; m_size := 1; m_file := [117]; m_debug_file := []; m_debug_id := [];
+                        m_code_id := []; m_version := None |} ];
      s_crash := Some {| cr_reason := [83]; cr_addr := 16; cr_adjusted := Some (AdjNull 16); cr_instr := Some [97; 100; 100];
                         cr_accesses := Some [ {| a_addr := 16; a_size := Some 4; a_guard := true; a_type := 2 |} ];
-                        cr_ipu := Some IpuNone; cr_flips := []; cr_incons := [4] |};
-     s_sys := {| sy_os := 8; sy_os_raw := 32768; sy_os_ver := None; sy_cpu := 0; sy_cpu_info := None; sy_cpu_count := 1;
+                        cr_ipu := Some IpuNone;
+                        cr_flips := [ {| bf_addr := 0; bf_reg := Some [114]; bf_nc := false; bf_null := true; bf_low := true;
+                                         bf_nearby := 0; bf_poison := false |} ];
+                        cr_incons := [4] |};
+     s_sys := {| sy_os := 3; sy_os_raw := 0; sy_os_ver := None; sy_cpu := 0; sy_cpu_info := None; sy_cpu_count := 1;
                  sy_microcode := Some 26 |};
-     s_lsb := None; s_mapcount := None; s_cert := false |}.
-Example c15_nonvacuous_state : state_ok ex_state /\
-  exists j, json_of_state Debug ex_state = Ret j /\ parse (serialise j) = Some j /\
-            jget k_thread_count j = Some (JNum 2) /\ (140 < length (serialise j))%nat.
+     s_lsb := Some ([105], [114], [99], [100]); s_mapcount := Some 3;
+     s_certinfo := [([109], [77; 111; 122])];
+     s_symstats := [([109], {| ss_url := None; ss_loaded := false; ss_corrupt := true; ss_extra := Some ([47; 120; 47; 121], [65]) |})];
+     s_assertion := Some [33];
+     s_limits := Some [ {| li_name := [98]; li_soft := LLimited 5; li_hard := LUnlimited; li_unit := [] |};
+                        {| li_name := [97]; li_soft := LErr; li_hard := LLimited 18446744073709551615; li_unit := [117] |} ];
+     s_mac_crash := Some [ {| mc_thread := Some 1; mc_dialog := None; mc_abort := Some 4294967296; mc_module := Some [109];
+                              mc_message := None; mc_signature := None; mc_backtrace := None; mc_message2 := Some [34] |} ];
+     s_bootargs := Some [45; 118];
+     s_handles := Some [ {| h_handle := Some 18446744073709551615; h_type := Some [70]; h_object := None |} ] |}.
+Example c15_nonvacuous_state : state_ok ex_state /\ wf_state ex_state = true /\
+  exists j, json_of_state Debug ex_state = Ret j /\ parse (serialise j) = Some j /\ conforms DOC_SCHEMA j = true /\
+            jget k_thread_count j = Some (JNum 2) /\ (1400 < length (serialise j))%nat.
 Proof.
-  split.
-  - unfold state_ok, ex_state, frame_ok, module_ok; cbn. repeat constructor; cbn; try lia;
-      try discriminate;
-      repeat match goal with
-             | |- forall _, _ => intro
-             | H : _ = Some _ |- _ => cbn in H; inversion H; clear H; subst
-             end; try lia; try discriminate.
-  - eexists. split; [vm_compute; reflexivity|]. split; [apply serialise_parse|]. split; [reflexivity|vm_compute; lia].
+  assert (W : wf_state ex_state = true) by (vm_compute; reflexivity).
+  split; [apply wf_state_ok; exact W|]. split; [exact W|].
+  eexists. split; [vm_compute; reflexivity|]. split; [apply serialise_parse|]. split; [vm_compute; reflexivity|].
+  split; [reflexivity|vm_compute; lia].
 Qed.
